@@ -43,13 +43,15 @@ pub struct Cfg {
     pub batch: Option<(u32, u64)>, // (size, interval ms)
     pub count: usize,
     pub payload: usize,
+    /// explicit per-message payload sizes (mixed-size configurations); overrides count/payload
+    pub sizes: Option<Vec<usize>>,
     pub id: u64,
 }
 
 impl Cfg {
     fn json(&self) -> Value {
         json!({"codec": self.codec, "compression": self.compression, "batching": self.batch.map(|(s, i)| json!({"size": s, "interval_ms": i})),
-               "messages": self.count, "payload_bytes": self.payload})
+               "messages": self.count, "payload_bytes": self.payload, "payload_sizes": self.sizes})
     }
 }
 
@@ -224,7 +226,8 @@ where
     };
     let mut sent: Vec<T> = vec![];
     for i in 0..cfg.count {
-        let item = T::make(i as u64, cfg.payload, &mut rng);
+        let size = cfg.sizes.as_ref().map_or(cfg.payload, |v| v[i]);
+        let item = T::make(i as u64, size, &mut rng);
         match publisher.send(item.clone()).await {
             Ok(()) => sent.push(item),
             Err(e) => {
@@ -339,7 +342,7 @@ fn configs(tier: &str, rng: &mut Rng) -> Vec<Cfg> {
     let mut id = 0u64;
     let mut push = |codec: &'static str, comp: Option<&str>, batch: Option<(u32, u64)>, count: usize, payload: usize, v: &mut Vec<Cfg>| {
         id += 1;
-        v.push(Cfg { codec, compression: comp.map(|s| s.to_string()), batch, count, payload, id });
+        v.push(Cfg { codec, compression: comp.map(|s| s.to_string()), batch, count, payload, sizes: None, id });
     };
     // systematic core: every codec × every compression, unbatched and batched with a partial tail
     for codec in codecs {
@@ -371,6 +374,34 @@ fn configs(tier: &str, rng: &mut Rng) -> Vec<Cfg> {
             push("bincode", Some("lz4"), Some((2, 3_600_000)), count, payload, &mut v);
             push("string", Some("gzip"), Some((4, 0)), count, payload, &mut v);
         }
+    }
+    // mixed payload sizes inside one stream: a few large messages among tiny ones, total below the frame
+    // limit so that every possible batch still fits into one frame
+    let n_mixed = if thorough { 260 } else { 14 };
+    for k in 0..n_mixed {
+        let n = rng.range(3, 8) as usize;
+        let mut sizes: Vec<usize> = (0..n).map(|_| rng.below(48) as usize).collect();
+        let bigs = rng.range(1, 2) as usize;
+        let mut budget: usize = 960_000;
+        for _ in 0..bigs {
+            let pos = rng.usize(n);
+            let big = match rng.below(5) {
+                0 => 524_272 + rng.below(64) as usize - 32,
+                1 => 600_000,
+                2 => 300_000 + rng.below(100_000) as usize,
+                3 => 65_536 + rng.below(4096) as usize,
+                _ => 100_000 + rng.below(800_000) as usize,
+            };
+            let big = big.min(budget);
+            budget -= big.min(budget);
+            sizes[pos] = big;
+        }
+        let codec = ["string", "bytes"][k % 2];
+        // compression only where it cannot expand the large payload past the limit (bytes payloads are random)
+        let comp = if codec == "string" { *rng.pick(&[None, Some("gzip"), Some("zstd"), Some("lz4")]) } else { None };
+        let batch = if k % 4 == 3 { None } else { Some((*rng.pick(&[2u32, 3, 10, 100]), *rng.pick(&[3_600_000u64, 3_600_000, 50]))) };
+        push(codec, comp, batch, n, 0, &mut v);
+        v.last_mut().unwrap().sizes = Some(sizes);
     }
     if thorough {
         for _ in 0..1400 {
@@ -442,7 +473,7 @@ pub fn run(rep: &mut StageReport, tier: &str, seed: u64) {
     for (cfg, o) in results {
         rep.evaluations += 1;
         let mut h = Hasher64::new();
-        h.s(&format!("{:?}", (cfg.codec, &cfg.compression, cfg.batch, cfg.count, cfg.payload)));
+        h.s(&format!("{:?}", (cfg.codec, &cfg.compression, cfg.batch, cfg.count, cfg.payload, &cfg.sizes)));
         match o {
             Outcome::Held { delivered } => {
                 delivered_total += delivered as u64;
